@@ -225,11 +225,11 @@ func vClusterHealthyRun(fixedOp int) {
 	l := time.Duration(vRange(0, half-1))
 	c.lat = func(src, dst int) time.Duration { return l }
 	// rotate the tables so that the probe targets of the first round differ (quick: one shared rotation; thorough:
-	// one per node)
+	// node 1 rotated independently)
 	rot := vPick(3)
 	for i, f := range c.f {
 		f.m.probeIndex = (i + rot) % 3
-		if vTier() == 1 && i > 0 {
+		if vTier() == 1 && i == 1 {
 			f.m.probeIndex = (i + vPick(3)) % 3
 		}
 	}
@@ -241,7 +241,9 @@ func vClusterHealthyRun(fixedOp int) {
 	at := 0        // the round in which the operation starts (thorough: any)
 	pp := []int{n, 0}[vPick(2)] // who runs a push/pull in round 1 (n = nobody; thorough: anybody)
 	if vTier() == 1 {
-		at = vPick(rounds)
+		if op != 0 {
+			at = vPick(rounds)
+		}
 		pp = vPick(n + 1)
 	}
 	leaver := -1
